@@ -527,7 +527,10 @@ func (r *Router) processChunks() (time.Duration, error) { //nolint:cyclop
 		// Pass it to the parent via NAT
 		toParent, err := r.nat.translateOutbound(chunk)
 		if err != nil {
-			return 0, err
+			// A chunk the NAT cannot translate is dropped; the router keeps running.
+			r.log.Warnf("[%s] %s", r.name, err.Error())
+
+			continue
 		}
 
 		if toParent == nil {
